@@ -191,7 +191,7 @@ def run_gossip(ctx, clauses, thorough, model=True):
     stats = {"model_behaviours": 0, "random_runs": 0, "scripted_runs": len(scripts)}
     if model:
         cfg = "MCGossip_t.cfg" if thorough else "MCGossip_q.cfg"
-        res = ctx.tlc("MCGossip", cfg, workers=8, timeout=3000 if thorough else 600, coverage=True, heap="8g",
+        res = ctx.tlc("MCGossip", cfg, workers=1, timeout=3000 if thorough else 600, coverage=True, heap="8g",
                       label="design model, exhaustive: invariants C10_*, C11_*, C29_* with deviations disabled")
         ctx.tlc_ok(res, "MCGossip")
         if res.violated:
@@ -199,7 +199,7 @@ def run_gossip(ctx, clauses, thorough, model=True):
             return [], stats
         ctx.require_coverage(res, ["Connect", "Disconnect", "Receive", "Subscribe", "GossipTick", "AnnounceRefs", "VisChange", "Restart"])
         for name, cfgd, inv in (("stale-deliverer", "MCGossip_dev1.cfg", "C10_NoEcho"), ("replay-unstored", "MCGossip_dev2.cfg", "C11_Refs")):
-            dev = ctx.tlc("MCGossip", cfgd, workers=8, timeout=900, coverage=False, count=False, heap="8g",
+            dev = ctx.tlc("MCGossip", cfgd, workers=1, timeout=900, coverage=False, count=False, heap="8g",
                           label=f"sanity: deviation {name} must violate {inv}")
             if dev.violated != inv:
                 raise vlib.ToolError(f"sanity run: deviation {name} was not rejected by TLC ({dev.violated})")
